@@ -6,6 +6,21 @@ NOTES = ('All checks are ./check <id>; each rebuilds a source-only overlay from 
 NOT_CLAIMED = {}
 
 PROPS = {
+    'C08': {
+        'modules': ['contracts.C08_query'],
+        'level': 'proof',
+        'level_text': 'parse_query_string (real source) equals, as a mapping, a reference fold written from the statement for query strings of 1..3 fields built from '
+                      'symbolic separator-free atoms (names, values, comma elements), all four option settings, never raising; every typed getter (get_param, '
+                      'as_int/float/bool/uuid/datetime/date/json/list, has_param; WSGI and the ASGI override) over six parameter shapes (absent / str / list of '
+                      '1,2,3 / empty list): last occurrence converted by the reference conversion, required/default/store/min/max exactly, only 400-class errors '
+                      'escape, store untouched on failure; params wiring of both Request constructors (parser called once with the raw text and both flags; form '
+                      'body merged); to_query_str rendered string exact for 0..2 keys.',
+        'level_note': 'Induction over the field list (> 3 fields) and the law parse(to_query_str(d)) == d are NOT mechanised: labelled bounded stand-in (all strings '
+                      '<= 4 over 11 symbols x 4 settings vs an independent reference; every getter on every produced parameter; round trip for dicts <= 2 keys). '
+                      'split/partition on the constructed strings are answered from the construction (trusted); decode is the C10 contract; int()/float() are '
+                      'axiomatised functions of the string; cyutil/uri.pyx is out of reach. Recorded known finding: `a=,` with csv on and blanks dropped parses '
+                      'to {a: []} and nine getters raise IndexError.',
+    },
     'C06': {
         'modules': ['contracts.C06_equivalence'],
         'level': 'proof',
